@@ -135,6 +135,7 @@ type HarnessCfg struct {
 	Workers         int
 	MaxPaths        int
 	SolverTimeoutMS int
+	Solver          string
 	LoopBound       int
 	MaxInstr        int64
 	MaxDeviations   int
@@ -162,6 +163,7 @@ type Result struct {
 	Paths        int
 	ByStatus     map[string]int
 	Violations   []Violation
+	ViolationPaths int
 	Transitions  int
 	Obligations  int
 	Discharged   int
@@ -192,7 +194,7 @@ type worker struct {
 	i *interpreter
 }
 
-func newInterpreter(P *Program, timeoutMS int) *interpreter {
+func newInterpreter(P *Program, kind string, timeoutMS int) *interpreter {
 	i := &interpreter{
 		P:         P,
 		prog:      P.Prog,
@@ -202,7 +204,7 @@ func newInterpreter(P *Program, timeoutMS int) *interpreter {
 	if rt := P.Prog.ImportedPackage("runtime"); rt != nil {
 		i.runtimeErrorString = rt.Type("errorString").Object().Type()
 	}
-	i.solver = NewSolver(timeoutMS)
+	i.solver = NewSolver(kind, timeoutMS)
 	return i
 }
 
@@ -437,6 +439,7 @@ func Explore(P *Program, cfg HarnessCfg) *Result {
 	problems := map[string]int{}
 	fnStats := map[*ssa.Function]int{}
 	samplesWanted := cfg.SampleModels
+	violPerLabel := map[string]int{}
 
 	var wg sync.WaitGroup
 	for w := 0; w < cfg.Workers; w++ {
@@ -472,7 +475,7 @@ func Explore(P *Program, cfg HarnessCfg) *Result {
 				mu.Unlock()
 
 				if in == nil {
-					in = newInterpreter(P, cfg.SolverTimeoutMS)
+					in = newInterpreter(P, cfg.Solver, cfg.SolverTimeoutMS)
 					in.solver.DumpDir = cfg.DumpDir
 				}
 				pr := in.runPath(h, prefix, &cfg, wantSample)
@@ -511,9 +514,11 @@ func Explore(P *Program, cfg HarnessCfg) *Result {
 				switch pr.status {
 				case StViolation, StPanic:
 					if pr.violation != nil {
-						if len(res.Violations) < 50 {
+						violPerLabel[pr.violation.Label]++
+						if len(res.Violations) < 50 && violPerLabel[pr.violation.Label] <= 3 {
 							res.Violations = append(res.Violations, *pr.violation)
 						}
+						res.ViolationPaths++
 						if cfg.StopOnViolation {
 							stop = true
 						}
